@@ -3,6 +3,12 @@
 import json, os, glob
 vd = os.path.dirname(os.path.abspath(__file__))
 meta = json.load(open(os.path.join(vd, 'manifest_meta.json')))
+import subprocess
+def commits(pattern):
+    out = subprocess.run(['git', '-C', '/repo', 'log', '--reverse', '--format=%h', '--grep', pattern], capture_output=True, text=True).stdout.split()
+    return out
+meta['source_commits'] = commits('^verif hook')
+meta['fix_commits'] = commits('^fix:')
 props = [json.loads(l) for l in open(os.path.join(vd, 'properties.jsonl'))]
 checks = []
 na = []
@@ -37,7 +43,7 @@ man = {
                  "kind_free_text": "home-built deductive verifier for Go: verification-condition generator over go/ssa (x/tools v0.29.0) with contracts as //@ comments in build-tag-guarded files inside /repo; obligations discharged by z3 4.8.12 / z3 5.1.0 / cvc5 1.0; structural frame obligations by its own SSA analyses"}],
     "checks": checks,
     "not_applicable": na,
-    "notes": meta.get("notes", ""),
+    "notes": meta.get("notes", "") + " Unguarded repairs of genuine defects (fix: commits in /repo): " + ", ".join(meta['fix_commits']) + ".",
 }
 json.dump(man, open(os.path.join(vd, 'MANIFEST.json'), 'w'), indent=1)
 print("checks:", len(checks), "not_applicable:", len(na))
